@@ -99,6 +99,10 @@ def check_case(case) -> Outcome:
     elif shape == "tuple":
         f = Formula(tuple(strs))
         exp_leaves = {("root", i): i for i in range(len(strs))}
+    elif shape == "rootonly":
+        # a structure with a single (root) part is still a structure: results keep that shape
+        f = Formula({"root": strs[0]})
+        exp_leaves = {("root",): 0}
     else:
         raise ValueError(shape)
     out.label("shape:" + shape, "out:" + output, "efr" if efr else "no-efr")
@@ -208,11 +212,11 @@ def gen(max_rows=10):
     @st.composite
     def strat(draw):
         fr = draw(F.frame(min_rows=2, max_rows=max_rows, nulls=True, index_kinds=("default", "default", "shuffled", "strings"), null_free=("z",)))
-        shape = draw(st.sampled_from(["twosided", "twosided", "multipart", "both", "keywords", "tuple"]))
-        nparts = {"twosided": 2, "multipart": draw(st.integers(2, 3)), "both": 3, "keywords": draw(st.integers(2, 3)), "tuple": draw(st.integers(2, 3))}[shape]
+        shape = draw(st.sampled_from(["twosided", "twosided", "multipart", "both", "keywords", "tuple", "tuple", "rootonly"]))
+        nparts = {"twosided": 2, "multipart": draw(st.integers(2, 3)), "both": 3, "keywords": draw(st.integers(2, 3)), "tuple": draw(st.integers(1, 3)), "rootonly": 1}[shape]
         parts = [draw(F.formulas(max_terms=3, max_factors=2, polyraw=False)) for _ in range(nparts)]
         sf = draw(st.one_of(st.none(), shared_fac))
-        if sf is not None:
+        if sf is not None and nparts >= 2:
             k = draw(st.integers(2, nparts))
             for p in parts[:k]:
                 pos = draw(st.integers(0, 1))
